@@ -139,6 +139,7 @@ func swarmKnobs(t *Tape) Knobs {
 		}
 	}
 	k.LegacyRevocationHandler = t.Chance(12)
+	k.LibSession = !k.JWTAccess && t.Chance(30)
 	if k.JWTAccess && t.Chance(40) {
 		k.JWTScopeField = t.Range(1, 3)
 	}
@@ -259,7 +260,11 @@ func genHistory(t *Tape, k *Knobs, m mix, n int) []Step {
 			}
 			s := Step{Op: "redeem", C: -1, G: t.Intn(codes * 2)}
 			if t.Chance(m.pkceBad) {
-				s.P = map[string]string{"ver": t.Pick([]string{"wrong", "none", "short", "long", "illegal", "othermethod", "correct"})}
+				s.P = map[string]string{"ver": t.Pick([]string{"wrong", "none", "short", "long", "illegal", "othermethod", "correct", "correct+illegal"})}
+				if t.Chance(12) {
+					// grant_type as a list: every handler that guards the code has to feel responsible, or none
+					s.P["grant_type"] = t.Pick([]string{"authorization_code refresh_token", "refresh_token authorization_code", "authorization_code authorization_code", "authorization_code client_credentials"})
+				}
 			}
 			steps = append(steps, s)
 			rts++
@@ -282,7 +287,7 @@ func genHistory(t *Tape, k *Knobs, m mix, n int) []Step {
 			case 0:
 				s.C = t.Intn(nc)
 			case 1:
-				s.P["redir"] = t.Pick([]string{"omit", "other", "enc", "slash"})
+				s.P["redir"] = t.Pick([]string{"omit", "other", "enc", "slash", "add"})
 			case 2:
 				s.A = t.Pick([]string{"bad_secret", "none"})
 			case 3:
@@ -413,7 +418,13 @@ func genHistory(t *Tape, k *Knobs, m mix, n int) []Step {
 				}
 				ps := st("par_push", t.Intn(nc), 0, kv...)
 				if m.par >= 50 && t.Chance(8) {
-					ps.A = t.Pick([]string{"bad_secret", "none", "as_other", "as_other"})
+					ps.A = t.Pick([]string{"bad_secret", "none", "as_other", "as_other_query"})
+				}
+				if m.par >= 50 && t.Chance(7) {
+					ps.P["embed_request_uri"] = "1" // a pushed request must not itself contain a request_uri
+				}
+				if m.par >= 50 && t.Chance(7) {
+					ps.P["no_client_id"] = "1" // the Authorization header alone identifies the client
 				}
 				steps = append(steps, ps)
 				pars++
@@ -469,7 +480,7 @@ func genHistory(t *Tape, k *Knobs, m mix, n int) []Step {
 		case 15:
 			steps = append(steps, Step{Op: "jwt_bearer", C: t.Intn(2), D: int64(t.Intn(4)), P: map[string]string{"scope": t.Pick([]string{"", "photos", "mail.read", "photos mail.read"})}})
 		case 16:
-			v := t.Pick([]string{"drop_scope:photos", "drop_scope:offline", "drop_scope:users.*", "drop_scope:openid", "drop_aud:https://api.sim/v1", "drop_all_aud", "drop_grant:refresh_token", "drop_scope:mail.read", "drop_aud:https://files.sim"})
+			v := t.Pick([]string{"rotate_secret:rotated-client-secret-" + fmt.Sprint(len(steps)), "drop_rotated", "drop_scope:photos", "drop_scope:offline", "drop_scope:users.*", "drop_scope:openid", "drop_aud:https://api.sim/v1", "drop_all_aud", "drop_grant:refresh_token", "drop_scope:mail.read", "drop_aud:https://files.sim"})
 			cc := Step{Op: "client_change", C: t.Intn(nc), V: v}
 			if t.Chance(50) {
 				cc.P = map[string]string{"how": "replace"}
@@ -530,6 +541,11 @@ var faultCalls = []string{"GetClient", "GetAuthorizeCodeSession", "InvalidateAut
 
 func sprinkleFaults(t *Tape, steps []Step, pct int) []Step {
 	kinds := append(append([]string{}, c18Kinds...), c18TxKinds...)
+	if t.Chance(40) && len(steps) > 3 {
+		// the process restarts between two requests: a fresh provider is composed over the surviving store
+		at := 1 + t.Intn(len(steps)-1)
+		steps = append(steps[:at], append([]Step{{Op: "restart"}}, steps[at:]...)...)
+	}
 	for i := range steps {
 		switch steps[i].Op {
 		case "redeem", "refresh", "device_token", "revoke", "authz_par":
